@@ -140,8 +140,8 @@ func c17Exhaustive(t *testing.T) {
 }
 
 func c17Gen(t *rapid.T) c17Case {
-	patAtoms := []string{"a", "b", "c", "/", "*", "*", "?", "[", "]", "^", "-", "\\", ".", "!", "[!a]", "[!-/]", "[\\]*]", "{a,b}", "~", "#", "é", "☺", "😀", "ab", "[a-c]", "[^a]", "[\\]]", "**", "?*", "\\*", "[☺-😀]", "[a-", "dir/"}
-	nameAtoms := []string{"a", "b", "c", "/", "]", "-", "^", "*", "?", "[", "\\", ".", "!", "{", "}", ",", "~", "#", "é", "☺", "😀", "ab", "dir/", "abc"}
+	patAtoms := []string{"a", "b", "c", "/", "*", "*", "?", "[", "]", "^", "-", "\\", ".", "!", "[!a]", "[!-/]", "[\\]*]", "{a,b}", "~", "#", "é", "☺", "😀", "ab", "[a-c]", "[^a]", "[\\]]", "**", "?*", "\\*", "[☺-😀]", "[a-", "dir/", "\uFFFD", "[\uFFFD]", "[^\uFFFD]", "[a-\uFFFD]", "[\\\uFFFD]"}
+	nameAtoms := []string{"a", "b", "c", "/", "]", "-", "^", "*", "?", "[", "\\", ".", "!", "{", "}", ",", "~", "#", "é", "☺", "😀", "ab", "dir/", "abc", "\uFFFD"}
 	var p, n strings.Builder
 	for _, a := range rapid.SliceOfN(rapid.SampledFrom(patAtoms), 0, 12).Draw(t, "pattern") {
 		p.WriteString(a)
